@@ -93,7 +93,7 @@ var propPlans = []propPlan{
 		NotDecided: "byte totals per segment.",
 		LevelText:  "Size check before buffering; the window head is dropped whenever the window is over its bound, with its path, its part paths and its file; files released."},
 	{ID: "C19", Title: "LL-HLS parts are regular",
-		Rules:      []string{"CG0", "Q1", "Q2", "Q3", "G10", "G6d", "G4g", "F1", "G4d", "G13"},
+		Rules:      []string{"CG0", "Q1", "Q2", "Q3", "G10", "G6d", "G4g", "F1", "G4d", "G13", "Q4", "G4c"},
 		NotDecided: "all the arithmetic: which multiple of the sample duration D is, the 85 % search of findCompatiblePartDuration and its 5 ms step, the upper bound D < 2 x max(PartMinDuration, sample duration) + sample duration, what happens with several sample durations, rounding of PART-TARGET beyond 'up to the millisecond'. Deciding those needs evaluating the code over value ranges (enumeration, symbolic execution): other technique families.",
 		LevelText:  "Thin, structural necessary conditions only: the part switch measures the time elapsed since the open part's own start against a threshold field of the segmenter; that threshold is adjusted before it is compared on the leading track's path; it is at least PartMinDuration by construction (search result that starts at the user's value and only adds non-negative steps); a part starts at the instant the previous one ends, in every stream; PART-TARGET is the maximum over every listed part including the open segment's, rounded up, copied to every rendition. The 85 % / 100 % bounds themselves are value-level and not decided."},
 	{ID: "C20", Title: "Client download pipeline",
